@@ -18,7 +18,7 @@ static void ghost_sha_setup(const IN_gh1 *g) {
 #if defined(VERIF_LEN_FITS) && defined(VERIF_CASE_NOBLOCK)      /* no block completes */
 #define LEN_CASE(ol, len) V_ASSUME((g_u64)(ol) + (g_u64)(len) < VERIF_BS)
 #elif defined(VERIF_LEN_FITS) && defined(VERIF_CASE_BLOCKS)     /* at least one block completes */
-#define LEN_CASE(ol, len) V_ASSUME((g_u64)(ol) + (g_u64)(len) <= 0xffffffffull && (g_u64)(ol) + (g_u64)(len) >= VERIF_BS)
+#define LEN_CASE(ol, len) V_ASSUME((len) <= SHA_MAX_SINGLE_UPDATE && (g_u64)(ol) + (g_u64)(len) >= VERIF_BS)
 #elif defined(VERIF_LEN_FITS)
 #define LEN_CASE(ol, len) V_ASSUME((g_u64)(ol) + (g_u64)(len) <= 0xffffffffull)
 #elif defined(VERIF_LEN_WRAPS)
